@@ -31,9 +31,11 @@ class CallbackContext(Location, ActionCallback):
     to close when the line/method completes.
     """
 
-    def __init__(self, event: str, filename: str, line: int, name: str, callbacks: List['ActionCallback']):
+    def __init__(self, event: str, filename: str, line: int, name: str, callbacks: List['ActionCallback'],
+                 frame: FrameType = None):
         """Create new callback context."""
         super().__init__(Location.Position.END)
+        self.frame = frame
         self.__event = event
         self.__filename = filename
         self.__function_name = name
